@@ -37,6 +37,8 @@ func runC04(c *Ctx) {
 	// witnessed (so the next commit sorts after it) and what is pulled is what the cache serves
 	checkWitnessAll(c, "R5.3")
 	checkCacheMergeFold(c, "R2.6")
+	// "it passes validation there": the keys a pack is verified with are those in force at its own edit time (shared with C08)
+	runC08(c)
 }
 
 // R4.1
@@ -529,13 +531,37 @@ func checkOpDispatch(c *Ctx) {
 			c.Violate("R4.3", "operationUnmarshaler:"+name, pos, "operation type "+name+" has no decoding case: such operations cannot be read back")
 			continue
 		}
-		if prev, dup := typeSeen[t]; dup && !strings.HasPrefix(t, "entity/dag.") {
+		if prev, dup := typeSeen[t]; dup {
 			c.Violate("R4.3", "operationUnmarshaler:"+name, pos, fmt.Sprintf("%s and %s are both decoded as %s", consts[prev], name, t))
 			continue
 		}
 		typeSeen[t] = k
 		if strings.HasPrefix(t, "entity/dag.") {
-			c.Hold("R4.3", "operationUnmarshaler:"+name, pos, "generic operation "+t+" (carries its own type)")
+			// a generic operation carries its type constant as data: the constructors of package bug that pass
+			// this constant to a dag constructor must build the very type decoded under it
+			built := ""
+			for _, f := range w.ModFns {
+				if isInstance(f) || fnPkgPath(f) != modPath+"/entities/bug" || f.Parent() != nil {
+					continue
+				}
+				for _, cl := range Calls(f) {
+					if !strings.HasPrefix(cl.Name, "entity/dag.New") {
+						continue
+					}
+					a := cl.Args()
+					if len(a) == 0 {
+						continue
+					}
+					if kk, isK := constInt(a[0]); isK && kk == k && cl.Value() != nil {
+						built = typeShortName(cl.Value().Type())
+					}
+				}
+			}
+			if built != "" && built != t {
+				c.Violate("R4.3", "operationUnmarshaler:"+name, pos, fmt.Sprintf("%s is built as %s but decoded as %s: its payload is dropped when it is read back", name, built, t))
+				continue
+			}
+			c.Hold("R4.3", "operationUnmarshaler:"+name, pos, "generic operation "+t+" (carries its own type), built and decoded as the same type")
 			continue
 		}
 		// Validate constant and constructor constant
